@@ -235,7 +235,20 @@ fn main() {
             let mut hist: std::collections::BTreeMap<String, (u64, u64)> = Default::default();
             for seed in 0..n {
                 let mut rng = rng::Rng::new(seed);
-                let set = gen::generate(&mut rng, &gen::GenCfg::default_cfg());
+                let mut gcfg = gen::GenCfg::default_cfg();
+                if args.get(3).map(|s| s.as_str()) == Some("full") {
+                    // every knob the C11 / C12 workloads switch on (warning-free ones)
+                    gcfg.comments = false;
+                    gcfg.intra_shared_enumerals = true;
+                    gcfg.classes = true;
+                    gcfg.real_components = true;
+                    gcfg.components_of = true;
+                    gcfg.echo_inner_names = true;
+                    gcfg.recursion_bias = seed % 3 == 0;
+                    gcfg.value_import_bias = seed % 2 == 0;
+                    gcfg.modules = (2, 5);
+                }
+                let set = gen::generate(&mut rng, &gcfg);
                 let text = set.concat();
                 for (bi, be) in [sut::BackendSel::Rasn(sut::RasnCfg::default_cfg()), sut::BackendSel::Ts].iter().enumerate() {
                     let o = sut::compile_to_string_render(be, &[sut::Src::Literal(text.clone())], &Default::default(), &[text.clone()]);
